@@ -150,8 +150,31 @@ Definition e_proxy (v : val) : val :=
   | None => verr
   end.
 
+(* message: VL [VN edge (0 smtp, 1 wsgi); VN policy-yields; VL behaviours] *)
+Definition d_msg (v : val) : option msg :=
+  match v with
+  | VL [VN e; VN py; VL bl] =>
+      match d_list d_wbeh bl with
+      | Some bs => Some (mkMsg (if e =? 0 then ESmtp else EWsgi) py bs)
+      | None => None
+      end
+  | _ => None
+  end.
+
+(* [relay?; [messages]; [schedule]] -> [[message number; event] ...] *)
+Definition e_sched (v : val) : val :=
+  match v with
+  | VL [VN relay; VL ml; VL sl] =>
+      match d_list d_msg ml with
+      | Some ms => VL (map (fun p => VL [VN (fst p); e_event (snd p)])
+                           (concurrent_run (negb (relay =? 0)) ms (map get_n sl)))
+      | None => verr
+      end
+  | _ => verr
+  end.
+
 Definition e_http (v : val) : val := VN (http_status_of (get_b v)).
 
 Definition entries : list entry :=
   [("c02_queue"%string, e_queue); ("c02_results"%string, e_results);
-   ("c02_proxy"%string, e_proxy); ("c02_http"%string, e_http)].
+   ("c02_proxy"%string, e_proxy); ("c02_http"%string, e_http); ("c02_sched"%string, e_sched)].
